@@ -1,0 +1,173 @@
+//go:build verif
+// +build verif
+
+package bfe_tls
+
+// Hooks for the out-of-tree verification harness of property C41 (build tag verif, add-only).
+// They run the REAL readClientHello on an in-memory connection and report the decisions it took.
+
+import (
+	"crypto/ecdsa"
+	"crypto/elliptic"
+	"crypto/rsa"
+	"io"
+	"math/big"
+	"net"
+	"time"
+)
+
+// VerifC41Hello is a ClientHello in terms of the fields the negotiation looks at.
+type VerifC41Hello struct {
+	Vers            uint16
+	Suites          []uint16
+	Compression     []uint8
+	Curves          []uint16
+	Points          []uint8
+	ALPN            []string
+	NPN             bool
+	TicketSupported bool
+	SessionTicket   []byte
+	SessionId       []byte
+	ServerName      string
+}
+
+// VerifC41Nego is what readClientHello decided.
+type VerifC41Nego struct {
+	Err         string // "" when readClientHello returned no error
+	Alert       int    // description of the (last) alert record written, -1 if none
+	Resume      bool
+	Vers        uint16
+	Suite       uint16 // 0 if none
+	ALPN        string // serverHello.alpnProtocol
+	ClientProto string // conn.clientProtocol
+	NPN         bool
+	NPNProtos   []string
+	ClientAuth  int
+	EcdheNoExt  bool // the ECDHE-without-extension fallback added curve/point format to the hello
+	SessVers    uint16
+	SessSuite   uint16
+	SessMaster  []byte
+}
+
+type verifC41Conn struct {
+	in  []byte
+	out []byte
+}
+
+func (f *verifC41Conn) Read(p []byte) (int, error) {
+	if len(f.in) == 0 {
+		return 0, io.EOF
+	}
+	n := copy(p, f.in)
+	f.in = f.in[n:]
+	return n, nil
+}
+func (f *verifC41Conn) Write(p []byte) (int, error) { f.out = append(f.out, p...); return len(p), nil }
+func (f *verifC41Conn) Close() error                { return nil }
+func (f *verifC41Conn) LocalAddr() net.Addr {
+	return &net.TCPAddr{IP: net.IPv4(127, 0, 0, 1), Port: 443}
+}
+func (f *verifC41Conn) RemoteAddr() net.Addr {
+	return &net.TCPAddr{IP: net.IPv4(127, 0, 0, 2), Port: 40000}
+}
+func (f *verifC41Conn) SetDeadline(t time.Time) error      { return nil }
+func (f *verifC41Conn) SetReadDeadline(t time.Time) error  { return nil }
+func (f *verifC41Conn) SetWriteDeadline(t time.Time) error { return nil }
+
+// VerifC41DummyCert returns a Certificate whose private key has the requested type; it is only good
+// for readClientHello (which looks at the key type), not for a full handshake.
+func VerifC41DummyCert(ecdsaKey bool) Certificate {
+	if ecdsaKey {
+		return Certificate{Certificate: [][]byte{{0}}, PrivateKey: &ecdsa.PrivateKey{PublicKey: ecdsa.PublicKey{Curve: elliptic.P256()}}}
+	}
+	return Certificate{Certificate: [][]byte{{0}}, PrivateKey: &rsa.PrivateKey{PublicKey: rsa.PublicKey{N: big.NewInt(1), E: 3}}}
+}
+
+// VerifC41ReadClientHello marshals the hello with bfe's own marshaller, feeds it as the first record of
+// a fresh server connection and runs the real (*serverHandshakeState).readClientHello.
+func VerifC41ReadClientHello(cfg *Config, h *VerifC41Hello) *VerifC41Nego {
+	m := &clientHelloMsg{
+		vers:               h.Vers,
+		random:             make([]byte, 32),
+		sessionId:          h.SessionId,
+		cipherSuites:       h.Suites,
+		compressionMethods: h.Compression,
+		nextProtoNeg:       h.NPN,
+		serverName:         h.ServerName,
+		supportedPoints:    h.Points,
+		ticketSupported:    h.TicketSupported,
+		sessionTicket:      h.SessionTicket,
+		alpnProtocols:      h.ALPN,
+	}
+	for _, c := range h.Curves {
+		m.supportedCurves = append(m.supportedCurves, CurveID(c))
+	}
+	body := m.marshal()
+	rec := []byte{byte(recordTypeHandshake), 3, 1, byte(len(body) >> 8), byte(len(body))}
+	fc := &verifC41Conn{in: append(rec, body...)}
+	c := Server(fc, cfg)
+	hs := serverHandshakeState{c: c}
+	nCurves := len(h.Curves)
+	isResume, err := hs.readClientHello()
+	res := &VerifC41Nego{Alert: -1, Resume: isResume, Vers: c.vers, ClientProto: c.clientProtocol, ClientAuth: int(c.clientAuth)}
+	if err != nil {
+		res.Err = err.Error()
+	}
+	// alerts are written in the clear before any cipher is established: 21 vv vv 00 02 level desc
+	out := fc.out
+	for len(out) >= 5 {
+		n := int(out[3])<<8 | int(out[4])
+		if len(out) < 5+n {
+			break
+		}
+		if out[0] == byte(recordTypeAlert) && n == 2 {
+			res.Alert = int(out[6])
+		}
+		out = out[5+n:]
+	}
+	if hs.suite != nil {
+		res.Suite = hs.suite.id
+	}
+	if hs.hello != nil {
+		res.ALPN = hs.hello.alpnProtocol
+		res.NPN = hs.hello.nextProtoNeg
+		res.NPNProtos = hs.hello.nextProtos
+	}
+	if hs.clientHello != nil && len(hs.clientHello.supportedCurves) > nCurves {
+		res.EcdheNoExt = true
+	}
+	if isResume && hs.sessionState != nil {
+		res.SessVers = hs.sessionState.vers
+		res.SessSuite = hs.sessionState.cipherSuite
+		res.SessMaster = hs.sessionState.masterSecret
+	}
+	return res
+}
+
+// VerifC41SessionBytes serialises a session state (the value stored in the server session cache).
+func VerifC41SessionBytes(vers, suite uint16, master []byte, certs [][]byte) []byte {
+	s := &sessionState{vers: vers, cipherSuite: suite, masterSecret: master, certificates: certs}
+	return s.marshal()
+}
+
+// VerifC41Ticket encrypts a session state into a ticket under cfg's ticket key.
+func VerifC41Ticket(cfg *Config, vers, suite uint16, master []byte, certs [][]byte) ([]byte, error) {
+	c := &Conn{config: cfg}
+	return c.encryptTicket(&sessionState{vers: vers, cipherSuite: suite, masterSecret: master, certificates: certs})
+}
+
+// VerifC41ParseHello parses a ClientHello handshake message (type, 3-byte length, body) as captured from the
+// wire with bfe's own clientHelloMsg.unmarshal and returns the fields the negotiation looks at.
+func VerifC41ParseHello(msg []byte) (*VerifC41Hello, bool) {
+	m := new(clientHelloMsg)
+	if len(msg) < 4 || msg[0] != typeClientHello || !m.unmarshal(append([]byte(nil), msg...)) {
+		return nil, false
+	}
+	h := &VerifC41Hello{Vers: m.vers, Suites: m.cipherSuites, Compression: m.compressionMethods, Points: m.supportedPoints,
+		ALPN: m.alpnProtocols, NPN: m.nextProtoNeg, TicketSupported: m.ticketSupported, SessionTicket: m.sessionTicket,
+		SessionId: m.sessionId, ServerName: m.serverName}
+	for _, c := range m.supportedCurves {
+		h.Curves = append(h.Curves, uint16(c))
+	}
+	return h, true
+}
